@@ -274,3 +274,9 @@ class Reassembler:
             self.parts = []
             return msg
         return None
+
+
+def unmask_all(buf):
+    """Concatenated (unmasked) payloads of all complete frames in buf - for 'does this payload appear on the wire' questions."""
+    frames, rest = decode_all(bytes(buf))
+    return b"".join(f.payload for f in frames)
